@@ -57,7 +57,7 @@ Section SPEC.
 
   (* ---- guards of the C08 theorem ---- *)
   Definition sv_guard (md : smode) (usenum : bool) (s : schema) (v : json) : bool :=
-    g_all2 rc rm fo md usenum s && vg v && g_div s v.
+    g_all2 rc rm fo md usenum s && vg v.
 
   (* class 1: every header of the selected response has a schema (is not defined by `content`) *)
   Definition g_hdr (o : vopts) (h : hdr) : bool :=
